@@ -416,16 +416,18 @@ type c07Pass struct {
 	nregs  int
 	evs    []c07Event
 	evsStr string
+	state  string
+	fam    [2]c07FamState
+}
+
+type c07FamState struct {
+	tracked, valid, connect bool
+	count                   int
 }
 
 type c07Fam struct {
-	reg       *DecoyRegistration // built directly by NewRegistrationC2SWrapper (same key as the ingested one)
-	kind      string
-	tracked   bool
-	valid     bool
-	count     int
-	connect   bool
-	announced int
+	reg  *DecoyRegistration // built directly by NewRegistrationC2SWrapper (same key as the ingested one)
+	kind string
 }
 
 // runCell executes one cell on the implementation; returns the model line, the implementation's
@@ -604,58 +606,39 @@ func (w *c07World) runCell(st c07Station, c c07Cell, secret []byte) (string, str
 			}
 		}
 		p.evsStr = strings.Join(evStrs, ",")
-	}
-
-	// ---- observable state per family after each pass is needed for the answer; recompute by
-	// replaying lookups now (state after pass 2) and from the events (pass 1 state = pass 2 state
-	// except for the counter, which the duplicate path bumps)
-	stateStr := func(pass int) string {
-		var s []string
+		// observable state of each family's registration after this pass
+		var ss []string
 		for i := range fams {
 			f := &fams[i]
 			if f.reg == nil {
-				s = append(s, "-")
+				ss = append(ss, "-")
 				continue
 			}
+			fs := &p.fam[i]
 			tr := rm.registeredDecoys.RegistrationExists(f.reg)
-			f.tracked, f.valid, f.count, f.connect = tr != nil, tr != nil && tr.Valid, 0, false
+			fs.tracked, fs.valid = tr != nil, tr != nil && tr.Valid
 			if tr != nil {
-				f.count = int(tr.regCount)
+				fs.count = int(tr.regCount)
 			}
 			if t, ok := rm.registeredDecoys.transports[f.reg.Transport]; ok {
-				_, f.connect = rm.GetRegistrations(f.reg.PhantomIp)[t.GetIdentifier(f.reg)]
+				_, fs.connect = rm.GetRegistrations(f.reg.PhantomIp)[t.GetIdentifier(f.reg)]
 			}
-			cnt := f.count
-			if pass == 0 && cnt > 0 && passes[1].nregs > 0 {
-				// pass 2 went through the duplicate path for every registration it rebuilt
-				cnt = c07CountAfterFirst(f, passes)
-			}
-			s = append(s, fmt.Sprintf("%s:%s:%s:%d:%s", c07Canon(f.reg.PhantomIp), vlib.B(f.tracked), vlib.B(f.valid), cnt, vlib.B(f.connect)))
+			ss = append(ss, fmt.Sprintf("%s:%s:%s:%d:%s", c07Canon(f.reg.PhantomIp), vlib.B(fs.tracked), vlib.B(fs.valid), fs.count, vlib.B(fs.connect)))
 		}
-		return strings.Join(s, ",")
+		p.state = strings.Join(ss, ",")
 	}
-	final := stateStr(1)
-	first := stateStr(0)
 
 	var impl string
 	if c.garbage {
 		impl = "-,-;" + passes[0].parse + ";" + passes[0].evsStr + ";-,-|-,-;" + passes[1].parse + ";" + passes[1].evsStr + ";-,-"
 	} else {
 		k := fams[0].kind + "," + fams[1].kind
-		impl = k + ";" + passes[0].parse + ";" + passes[0].evsStr + ";" + first + "|" + k + ";" + passes[1].parse + ";" + passes[1].evsStr + ";" + final
+		impl = k + ";" + passes[0].parse + ";" + passes[0].evsStr + ";" + passes[0].state + "|" + k + ";" + passes[1].parse + ";" + passes[1].evsStr + ";" + passes[1].state
 	}
 	model := "c07|" + cfgLine + "|" + wire + "|" + wire
 
 	w.oracle(st, c, parsedOK, fams, passes, replay)
 	return model, impl
-}
-
-// c07CountAfterFirst: the registration counter after the first pass (1 if it was tracked then).
-func c07CountAfterFirst(f *c07Fam, passes [2]c07Pass) int {
-	if f.count >= 2 {
-		return f.count - 1
-	}
-	return f.count
 }
 
 func c07BlocklistLine(block int) string {
